@@ -191,6 +191,13 @@ func (w *CronWorker) refreshUpdatedJobConfigs(now time.Time) {
 				)
 				continue
 			}
+
+			// Recompute using the latest version in the cache. If the JobConfig was
+			// deleted there is nothing to add back.
+			jobConfig, err := w.jobconfigInformer.Lister().JobConfigs(jobConfig.Namespace).Get(jobConfig.Name)
+			if err != nil {
+				continue
+			}
 			if _, err := w.schedule.Bump(jobConfig, now); err != nil {
 				klog.ErrorS(err, "croncontroller: cannot bump updated job config in heap",
 					"namespace", jobConfig.Namespace,
